@@ -1,6 +1,7 @@
+\* default configuration (bin/check C09 generates one per alphabet and length)
 SPECIFICATION Spec
 CONSTANTS
   Profile = "terms"
-  MaxLen = 3
+  MaxLen = 4
 INVARIANTS AllInvariants
 CHECK_DEADLOCK FALSE
